@@ -84,6 +84,20 @@ theorem fixed_types_guarded :
 theorem routes_untouched_guard :
     "vrf := dstOfRoute(c).vrf; chgVRF[vrf]" ∈ diffRoutesConds ∧ "!seenVRF[ipv+vrf]" ∈ diffRoutesConds := by decide
 
+/-- The protecting closure of `deleteUnused` calls itself on every not-needed object it reaches
+(references are followed transitively, as `stillFrom` in the model does), for referenced objects
+and for sub-commands. -/
+theorem deleteUnused_follows_transitively :
+    deleteUnusedFollowCalls = ["follow(c2)", "follow(c2)", "follow(c)", "follow(c)", "follow(sc)"] := by decide
+
+/-- An interface unknown to Netspoc is protected (`markNeeded`, removal from the compared lists)
+whether or not it is shut down: the `!shut` test guards only the warning (it is a separate, nested
+`if`, not part of the `!found` condition). -/
+theorem unknown_interface_protected_regardless_of_shutdown :
+    checkASAInterfacesConds =
+      ["len(tokens) == 5", "name != \"\"", "_, found := bIntf2cmd[name]; !found", "!shut",
+       "m := s.a.lookup[prefix]; m != nil", "len(l) != 0", "_, found := aIntf2cmd[name]; !found"] := by decide
+
 end NA.DelUnused
 
 namespace NA.C07
@@ -91,5 +105,6 @@ def obligations : List Lean.Name := [
   ``NA.DelUnused.deleted_only_candidates, ``NA.DelUnused.referencing_candidates_go_too,
   ``NA.DelUnused.still_contains_direct_refs, ``NA.DelUnused.still_closed_step,
   ``NA.DelUnused.deleteUnused_guards_as_modelled, ``NA.DelUnused.fixed_types_guarded,
-  ``NA.DelUnused.routes_untouched_guard]
+  ``NA.DelUnused.routes_untouched_guard, ``NA.DelUnused.deleteUnused_follows_transitively,
+  ``NA.DelUnused.unknown_interface_protected_regardless_of_shutdown]
 end NA.C07
